@@ -66,9 +66,11 @@ func applyStep(srv *fakeapi.Server, s wstep, errs *int) {
 	case 4:
 		srv.Inject(fakeapi.Frame{Type: watch.Error, Obj: &metav1.Status{Status: "Failure", Message: "injected"}})
 	case 5:
-		srv.Inject(fakeapi.Frame{Type: watch.Bookmark, Obj: (&Obj{ID: 9999, Kind: KPod, NS: 1, NM: 1, RV: "0", Spec: SPod}).Go().(runtime.Object)})
+		// a bookmark as an API server sends it: an object of the watched kind
+		// carrying nothing but the current resourceVersion
+		srv.Inject(fakeapi.Frame{Type: watch.Bookmark, Obj: (&Obj{ID: 9999, Kind: KPod, NS: 0, NM: 0, RV: fmt.Sprint(srv.Version()), Spec: SPod}).Go().(runtime.Object)})
 	case 9:
-		srv.Inject(fakeapi.Frame{Type: watch.EventType("WEIRD"), Obj: (&Obj{ID: 9998, Kind: KPod, NS: 1, NM: 1, RV: "0", Spec: SPod}).Go().(runtime.Object)})
+		srv.Inject(fakeapi.Frame{Type: watch.EventType("WEIRD"), Obj: (&Obj{ID: 9998, Kind: KPod, NS: 0, NM: 1, RV: fmt.Sprint(srv.Version() + 1), Spec: SPod}).Go().(runtime.Object)})
 	case 6:
 		srv.CloseStreamsAfter(s.K)
 	}
